@@ -26,6 +26,7 @@ type PipelineOracle struct {
 	wireIDs []map[Prefix]map[uint32]string
 	checkpoints int
 	expNH, expPrepend []bool
+	reest map[int]bool // peers whose session left Established at least once
 }
 
 type tagOrigin struct {
@@ -98,6 +99,9 @@ func expectedStored(w *World, p *Peer, s *Step, id uint32) CanonPath {
 }
 
 func (o *PipelineOracle) AfterStep(w *World, i int, s *Step) {
+	// session changes that happened since the last step are noticed before this step's
+	// messages are applied to the reference
+	o.trackSessions(w)
 	switch s.Kind {
 	case "announce", "withdraw":
 		if s.Mutation != nil || s.Malformed != "" {
@@ -205,6 +209,13 @@ func (o *PipelineOracle) trackSessions(w *World) {
 			if o.on("C07") {
 				o.checkTeardown(w, i, o.estConn[i])
 			}
+			if o.reest == nil {
+				o.reest = map[int]bool{}
+			}
+			o.reest[i] = true
+		}
+		if now && o.reest[i] && (!o.lastEst[i] || est.Con != o.estConn[i]) {
+			w.Env.probe("re_established")
 		}
 		o.lastEst[i] = now
 		if now {
@@ -274,6 +285,9 @@ func (o *PipelineOracle) checkIneligible(w *World, when string) {
 
 func (o *PipelineOracle) Final(w *World) {
 	o.checkpoint(w, true)
+	if o.on("C07") {
+		o.c07Final(w)
+	}
 }
 
 // checkpoint runs the stage-wise comparisons at a quiescent point.
@@ -426,6 +440,9 @@ func (o *PipelineOracle) checkpoint(w *World, final bool) {
 	}
 	if o.on("C06") {
 		o.checkIneligible(w, "checkpoint")
+	}
+	if o.on("C07") {
+		o.c07Checkpoint(w, obs)
 	}
 }
 
